@@ -117,7 +117,8 @@ def sepListRec (item : G) (rec : Nat) : G :=
       let x := v.nth 0
       let tl := v.nth 1
       Tree.list ((if x.isNone then [] else [x]) ++ (if tl.kind == "#seq" then (tl.nth 1).kids else [])))
-    (.seq (.recover .span item) (.ifTok [Kind.Comma] (.ref rec) (.eps (Tree.list []))))
+    (.seq (.ifEof (.tok Kind.Comma) (.recover .span item))   -- nothing after the separator: `Unexpected EOF` for the caller
+      (.ifTok [Kind.Comma] (.ref rec) (.eps (Tree.list []))))
 
 /-- the stop branch of an `ifTok` yields `#seq [leaf stop, x]`; turn it into the loop value
     `#seq [#list [], leaf stop]`; other shapes are loop values already -/
